@@ -26,12 +26,24 @@
         write  fast-import refuses to move the ref when it no longer is at `<tip>` (compare and
                swap; the failure is not retried, the notes of that call are dropped)
 
+                 the real step sequence of the batch writer is
+                   acq    `lock_notes_ref`                      (position = a PARAMETER, see `LockTable`)
+                   read   `git rev-parse --verify refs/notes/ai`
+                   build  the fast-import script `from <tip>` is assembled (local; no shared state)
+                   write  `git fast-import`: moves the ref if it still is at `<tip>`, else refuses
+                          + the lock guard is dropped when the function returns (`finish`)
+
   `Mode` selects the locking discipline:
     none    no mutual exclusion (git-ai before the C11 repair)
     append  the journal lock is held from `read` to `write` only — kept to show that this is not
             enough for checkpoints (their content depends on `snap`)
     full    an exclusive advisory lock per cell is held from before the first read (`snap` for
             checkpoints) to after the write (git-ai after the C11 repair)
+    tbl t   journals and rewrite logs as `full`; the two kinds of notes writer take the notes lock
+            where the table `t` says (`LockPos`): before the read of the tip, between the read and
+            the write (check-then-act), or never. `t` is computed (`tableOf`) from the ORDER of the
+            lock / read / write statements of every notes-writing function of src/git/refs.rs,
+            which extract/notes_lock_order.py regenerates into Extracted/NotesLockOrder.lean.
   A step of a process that needs a lock held by another process changes nothing (the process
   polls). Schedules are lists of process ids.
 
@@ -232,26 +244,78 @@ def seqRun (v : Val) (l : List (Pid × Op)) : Val := l.foldl (fun v x => x.2.seq
 
 /-! ### 4. Processes and steps -/
 
+/-- where a notes writer takes the notes lock, relative to its read of the tip and its write -/
+inductive LockPos where
+  /-- lock < read < write: the whole read-modify-write is inside the critical section -/
+  | beforeRead
+  /-- read < lock < write: only the write is serialised (check-then-act) -/
+  | beforeWrite
+  /-- no lock before the write (or a guard that is dropped at once) -/
+  | never
+  deriving Repr, DecidableEq, Inhabited
+
+/-- lock position of the two kinds of notes writer: `add` = the blind writers (`git notes add`,
+    `git notes merge`: set the ref without comparing), `batch` = the compare-and-swap writers
+    (`rev-parse` + `fast-import from <tip>`) -/
+structure LockTable where
+  add : LockPos
+  batch : LockPos
+  deriving Repr, DecidableEq, Inhabited
+
+def LockTable.ok (t : LockTable) : Prop := t.add = .beforeRead ∧ t.batch = .beforeRead
+
+instance (t : LockTable) : Decidable t.ok := by unfold LockTable.ok; exact inferInstance
+
 inductive Mode where
   | none | append | full
+  | tbl (t : LockTable)
   deriving Repr, DecidableEq
 
 inductive Phase where
-  | acq | snap | read | write
+  | acq | snap | read | build | write
   deriving Repr, DecidableEq, Inhabited
+
+def Op.isBatch : Op → Bool
+  | .noteBatch .. => true
+  | _ => false
+
+/-- where `op` takes its lock under the table -/
+def LockTable.pos (t : LockTable) : Op → LockPos
+  | .noteAdd .. => t.add
+  | .noteBatch .. => t.batch
+  | _ => .beforeRead
+
+/-- the discipline takes the lock of `op` only after `op` has read (and built) -/
+def Mode.lockLate (m : Mode) (op : Op) : Bool :=
+  match m with
+  | .tbl t => t.pos op == .beforeWrite
+  | _ => false
+
+/-- the lock of a checkpoint is taken before its snapshot -/
+def Mode.ckptEarly : Mode → Bool
+  | .full | .tbl _ => true
+  | _ => false
 
 def firstPh (m : Mode) (op : Op) : Phase :=
   match m with
   | .full => .acq
   | .none => if op.isCkpt then .snap else .read
   | .append => if op.isCkpt then .snap else .acq
+  | .tbl t => match t.pos op with
+    | .beforeRead => .acq
+    | _ => .read
+
+/-- what follows the read of a non-checkpoint update once its lock (if any) is settled -/
+def afterBuild (m : Mode) (op : Op) : Phase := if m.lockLate op then .acq else .write
 
 /-- the phase after `ph` (`write` is always the last one) -/
 def nextPh (m : Mode) (op : Op) (ph : Phase) : Phase :=
   match ph with
-  | .acq => if op.isCkpt && m == .full then .snap else .read
+  | .acq => if m.lockLate op then .write
+            else if op.isCkpt && m.ckptEarly then .snap else .read
   | .snap => if m == .append then .acq else .read
-  | .read => .write
+  | .read => if op.isBatch then .build else afterBuild m op
+  | .build => afterBuild m op
   | .write => .write
 
 structure Proc where
@@ -305,7 +369,8 @@ def step (m : Mode) (s : State) (p : Pid) : State :=
       let v := s.cell k
       if op.noEffect v then finish m s p pr op rest s.cell
       else { s with procs := upd s.procs p { pr with snap := v, ph := nextPh m op .snap } }
-    | .read => { s with procs := upd s.procs p { pr with loc := s.cell k, ph := .write } }
+    | .read => { s with procs := upd s.procs p { pr with loc := s.cell k, ph := nextPh m op .read } }
+    | .build => { s with procs := upd s.procs p { pr with ph := nextPh m op .build } }
     | .write => finish m s p pr op rest (upd s.cell k (op.write pr.snap pr.loc (s.cell k)))
 
 def run (m : Mode) (s : State) (sched : List Pid) : State := sched.foldl (step m) s
@@ -326,9 +391,77 @@ def stepTag (s : State) (p : Pid) : Str :=
       | none => ['a', 'c', 'q']
     | .snap => if op.noEffect (s.cell op.key) then ['s', 'n', 'a', 'p', '-', 'n', 'o', 'o', 'p'] else ['s', 'n', 'a', 'p']
     | .read => ['r', 'e', 'a', 'd']
+    | .build => ['b', 'u', 'i', 'l', 'd']
     | .write =>
       match op with
       | .noteBatch .. => if (s.cell op.key).tip = pr.loc.tip then ['w', 'r', 'i', 't', 'e'] else ['c', 'a', 's', '-', 'f', 'a', 'i', 'l']
       | _ => ['w', 'r', 'i', 't', 'e']
+
+/-! ### 6. The lock order of the notes writers, as read off src/git/refs.rs
+
+  extract/notes_lock_order.py lists every function that runs a git command which moves
+  `refs/notes/ai`, with the ORDER of its lock / tip-read / ref-write statements
+  (Extracted/NotesLockOrder.lean, regenerated on every C11 run). `tableOf` turns that list into the
+  `LockTable` of the `tbl` discipline. -/
+
+inductive Ev where
+  /-- `let _guard = lock_notes_ref(repo);` -/
+  | lock
+  /-- the git command that reads the tip / the notes tree (`rev-parse --verify refs/notes/ai`, or
+      the first half of `git notes add|merge`) -/
+  | read
+  /-- the git command that moves the ref (`fast-import`, or the second half of `git notes add|merge`) -/
+  | write
+  deriving Repr, DecidableEq
+
+inductive WClass where
+  /-- sets the ref without comparing (`git notes add -f`, `git notes merge`) -/
+  | blind
+  /-- compare-and-swap on the tip read earlier (`fast-import` with `from <tip>`), not retried -/
+  | cas
+  deriving Repr, DecidableEq
+
+structure NotesWriter where
+  name : Str
+  cls : WClass
+  /-- the statements of the function body, in source order -/
+  events : List Ev
+  /-- the guard is bound to a named variable that lives until the function returns (not `let _ =`,
+      no explicit `drop`) -/
+  held : Bool
+  deriving Repr, DecidableEq
+
+/-- index of the first `e` (the length when there is none) -/
+def idxOf (e : Ev) : List Ev → Nat
+  | [] => 0
+  | x :: xs => if x = e then 0 else idxOf e xs + 1
+
+/-- the obligation on one writer: lock < read < write, all three present, guard held to the end -/
+def NotesWriter.lockReadWrite (w : NotesWriter) : Bool :=
+  w.held && decide (idxOf .lock w.events < idxOf .read w.events) &&
+  decide (idxOf .read w.events < idxOf .write w.events) &&
+  decide (idxOf .write w.events < w.events.length)
+
+def NotesWriter.pos (w : NotesWriter) : LockPos :=
+  let l := idxOf .lock w.events
+  let r := idxOf .read w.events
+  let wr := idxOf .write w.events
+  if !w.held || decide (w.events.length ≤ l) then .never
+  else if decide (l < r) && decide (l < wr) then .beforeRead
+  else if decide (l < wr) then .beforeWrite
+  else .never
+
+/-- the weaker of two positions -/
+def LockPos.meet : LockPos → LockPos → LockPos
+  | .beforeRead, x => x
+  | x, .beforeRead => x
+  | .never, _ => .never
+  | _, .never => .never
+  | .beforeWrite, .beforeWrite => .beforeWrite
+
+def classPos (ws : List NotesWriter) (c : WClass) : LockPos :=
+  (ws.filter (fun w => w.cls == c)).foldl (fun a w => a.meet w.pos) .beforeRead
+
+def tableOf (ws : List NotesWriter) : LockTable := ⟨classPos ws .blind, classPos ws .cas⟩
 
 end GitAi.Conc
